@@ -205,21 +205,22 @@ def eval_land(t, tt):
 CONS = ["none", "halfspace", "ball", "annulus", "band", "hyperplane", "corner"]
 
 
-def gen_cons(rng, D, kind, x0t):
+def gen_cons(rng, D, kind, x0t, infeasible_start=False):
     """x0t: normalised coordinate of the intended start (kept feasible with margin
-    where the family allows)."""
+    where the family allows; infeasible_start=True puts the start outside instead)."""
     c = {"kind": kind, "ret": str(rng.choice(["bool", "float"]))}
+    sgn = -1.0 if infeasible_start else 1.0
     if kind == "none":
         return c
     if kind == "halfspace":
         a = rng.normal(size=D)
         a /= np.linalg.norm(a)
         c["a"] = a.tolist()
-        c["b"] = float(a @ x0t + rng.uniform(0.05, 0.4))  # feasible: a.t <= b
+        c["b"] = float(a @ x0t + sgn * rng.uniform(0.05, 0.4))  # feasible: a.t <= b
     elif kind == "ball":
         ctr = x0t + rng.normal(size=D) * 0.1
         c["ctr"] = ctr.tolist()
-        c["r"] = float(np.linalg.norm(x0t - ctr) + rng.uniform(0.15, 0.6))
+        c["r"] = float(max(1e-3, np.linalg.norm(x0t - ctr) + sgn * rng.uniform(0.15, 0.6))) if not infeasible_start else float(np.linalg.norm(x0t - ctr) * rng.uniform(0.2, 0.8))
     elif kind == "annulus":
         ctr = x0t + rng.normal(size=D)
         ctr = x0t + (ctr - x0t) / max(np.linalg.norm(ctr - x0t), 1e-9) * rng.uniform(0.3, 0.6)
@@ -239,13 +240,15 @@ def gen_cons(rng, D, kind, x0t):
         c["x0_0"] = None
     elif kind == "corner":
         # non-convex: infeasible iff all t_i > ctr_i (an orthant removed)
-        c["ctr"] = (x0t + rng.uniform(0.05, 0.3, D)).tolist()
+        c["ctr"] = (x0t + sgn * rng.uniform(0.05, 0.3, D)).tolist()
     return c
 
 
 def eval_cons(c, X, plb, pub, logm):
     X = np.atleast_2d(np.asarray(X, float))
     k = c["kind"]
+    if X.shape[0] == 0 or X.size == 0:
+        return np.zeros(0, dtype=bool) if c.get("ret") == "bool" else np.zeros(0)
     if k == "hyperplane":
         v = np.abs(X[:, 0] - c["x0_0"])
         viol = v  # > 0 when off the plane
@@ -288,6 +291,7 @@ def make_spec(
     sigma=None,
     noise_src="global",
     max_fun_evals=None,
+    infeasible_start=False,
 ):
     D = int(D if D is not None else rng.choice([1, 2, 3], p=[0.3, 0.45, 0.25]))
     geom = geom or str(rng.choice(GEOMS))
@@ -309,7 +313,7 @@ def make_spec(
     noise = {"mode": mode, "sigma": sigma if mode != "det" else 0.0, "src": noise_src}
     cons_kind = cons or "none"
     x0t = tmap(x0, plb, pub, logm) if x0 is not None else np.full(D, 0.5)
-    cspec = gen_cons(rng, D, cons_kind, np.asarray(x0t, float))
+    cspec = gen_cons(rng, D, cons_kind, np.asarray(x0t, float), infeasible_start=infeasible_start)
     if cons_kind == "hyperplane":
         cspec["x0_0"] = float(x0[0]) if x0 is not None else float(tinv(np.full(D, 0.5), plb, pub, logm)[0])
     opts = {"display": "off", "random_seed": int(rng.integers(0, 2**31 - 1))}
